@@ -22,6 +22,7 @@ EXPLANATION = ("Static rules over Experiment.run, MakeTasks/ChunkTasks, CobaMult
                "chunking partitions the tasks; the result rebuild iterates only through sorted(); no time/hash/id/"
                "unseeded randomness reaches a recorded value; no set is iterated into ordered output.")
 EXPLANATION += ' R8: state cannot flow between tasks through shared objects (copy flag over all triples, no cross-read filter state, per-child limit counts input chunks).'
+EXPLANATION += ' Also composed into R8: filters never train a learner they hold (C04.R7), learning_info cleared per evaluation (C03.R5), maxtasksperchunk batching partitions the tasks (cardinality domain).'
 
 EXP = "coba/experiments/core.py"
 PROC = "coba/experiments/process.py"
